@@ -8,6 +8,7 @@ from __future__ import annotations
 
 from typing import Iterator as TypingIterator, cast
 
+from exabgp.bgp.message.update.collection import validate_announce_nlri
 from exabgp.protocol.ip import IP
 
 from exabgp.rib.route import Route
@@ -42,6 +43,14 @@ class ParseAnnounce(Section):
         self._split()
         routes = self.scope.pop(self.name)
         if routes:
+            if self.parser.tokeniser.announce:
+                # an announcement which cannot be put on the wire (no next hop, no label, no rd) is refused with
+                # its line; a withdrawal needs none of them.  Accepted, it raised in the peer loop each time the
+                # routes were sent and the session never held
+                for route in routes:
+                    error = validate_announce_nlri(route.nlri, route.nexthop)
+                    if error:
+                        return self.error.set(error)
             self.scope.extend_routes(routes)
         return True
 
